@@ -37,6 +37,9 @@ def cases(tier, seed):
     pairs = list(itertools.product(TYPES, TYPES))
     for a, b in pairs:
         out.append({"name": "pair.route/%s>%s" % (a, b), "kind": "route", "layers": [a, b], "cap": cap})
+    for a in TYPES:
+        # a poll function that raises once: exactly the submissions it was shown fail with that exception
+        out.append({"name": "pair.route-raise/%s>poll" % a, "kind": "route", "layers": [a, "poll"], "cap": cap * 2, "poll_raise": True})
     return out
 
 
@@ -169,6 +172,8 @@ class RScenario(object):
                 L.update(count=2)
             if t == "poll":
                 L.update(interval=0.5)
+                if case.get("poll_raise") and k == len(case["layers"]) - 1:
+                    L.update(mode="raise_once")
             if t == "timeout":
                 L.update(timeout=1000.0)
             if t == "map":
@@ -202,9 +207,16 @@ class RScenario(object):
             self.run_item_of(ctx, 0)
         elif what == "completeB":
             self.run_item_of(ctx, 1)
-        elif what == "submitC":
+        elif what in ("submitC", "runC"):
             if len(ctx.futs) < 3:
                 ctx.futs.append(ctx.b.top.submit(ctx.fns[2], 2))
+            if what == "runC":
+                # ... and its delegate work finishes right away (on this thread)
+                for _ in range(3):
+                    if self.run_item_of(ctx, 2):
+                        break
+                    import time as _t
+                    _t.sleep(0.002)
 
     def victim_role(self, ctx):
         if self.victim == "worker" and ctx.threads:
@@ -229,7 +241,24 @@ class RScenario(object):
 
     def oracle(self, ctx, res, info):
         label = "%s victim=%s second=%s placement=%s" % (self.case["name"], self.victim, self.second, info.get("site"))
+        raised = None
+        for key, val in ctx.b.poll_state.items():
+            if isinstance(key, tuple) and key[0] == "raised":
+                raised = val
+        shown = set()
+        if raised is not None:
+            for r in raised[1]:
+                x = r
+                while isinstance(x, tuple) and x and x[0] != "v":
+                    x = x[-1]
+                if isinstance(x, tuple) and len(x) == 2:
+                    shown.add(x[1])
         for sid, f in enumerate(ctx.futs):
+            if sid in shown:
+                o = outcome(f)
+                if o[0] != "exc" or o[1] is not raised[0]:
+                    res.violation("poll-failure-not-delivered", "%s submission %d was shown to the raising poll call but has %s" % (label, sid, outcome_repr(o)))
+                continue
             check_submission(res, label, self.spec, ctx.scripts[sid], ctx.fns[sid], f, ctx.args[sid], timeout=0)
         if info.get("hit"):
             res.key("route", self.case["name"], self.victim, self.second, info.get("site"))
@@ -239,7 +268,7 @@ def run_route(case, res):
     rng = random.Random("c01/%s/%s" % (case["seed"], case["name"]))
     has_worker = bool(set(case["layers"]) & {"retry", "poll", "throttle", "timeout"})
     for victim in (("chain", "worker") if has_worker else ("chain",)):
-        for second in ("completeB", "submitC"):
+        for second in ("completeB", "submitC", "runC"):
             Sweep(RScenario(case, victim, second), res, "vt", case["name"]).run(case["cap"], rng, per_site=1)
             if harness.need_recycle():
                 return
